@@ -41,6 +41,7 @@ const (
 )
 
 type prim struct {
+	lit  string // number written as this integer literal text (otto holds it as a Go int64); f is the double it denotes
 	kind int
 	b    bool
 	f    float64
@@ -77,6 +78,9 @@ func (p prim) js() string {
 	case kBool:
 		return Cbool(p.b)
 	case kNum:
+		if p.lit != "" {
+			return p.lit
+		}
 		return jsNum(p.f)
 	}
 	return jsStr(p.s)
@@ -326,6 +330,8 @@ func (e *expr) js() string {
 			return "String.fromCharCode(" + x + ").charCodeAt(0)"
 		case e.op == 10:
 			return s40 + ".indexOf(\"a\", " + x + ")"
+		case e.op == 12:
+			return "String(" + x + ").length"
 		default:
 			return "((" + x + ") >>> 0)"
 		}
@@ -410,6 +416,7 @@ type gen struct {
 // fresh prototype objects for the next case
 func (g *gen) resetCase() {
 	g.wproto = nil
+	g.force = nil
 	g.objs = g.objs[:0]
 	g.nextID = 0
 	pm := func() meth {
@@ -1224,6 +1231,155 @@ func (g *gen) intRepr(n int64, how int) {
 	g.env.Add(fmt.Sprintf("CIntStr %s %s", Cz(n), obs), sanitize(txt+src+"  ==>  "+ot), "intrepr", true)
 }
 
+// ---- numbers in every internal representation ----
+// otto keeps a number in whatever Go kind produced it (integer literal: int64, | & ^ ~ << >>: int32, >>>: uint32,
+// .length: int, Otto.Set: the Go kind given, everything else float64).  An operand for the integer n is built in one
+// of these representations; the Coq side evaluates the same expression, so the value is whatever ES5 makes of it.
+
+var reprBoundaries = []int64{0, 1, -1, 2, -2, 3, 7, 255, 256, 65535, 65536, 2147483646, 2147483647, 2147483648, 2147483649, -2147483647, -2147483648, -2147483649,
+	4294967295, 4294967296, 4294967297, -4294967296, 9007199254740991, 9007199254740992, 9007199254740993, 9007199254740995, -9007199254740993, 4611686018427387904,
+	9223372036854775807, 9223372036854775806, -9223372036854775807, 1152921504606846977, 6442450944, -6442450944, 12884901888}
+
+func (g *gen) reprOperand(n int64, vs *[3]value, slot int) *expr {
+	r := g.env.Rng
+	f := float64(n)
+	plain := lit(num(f))
+	switch r.Intn(12) {
+	case 0:
+		return plain
+	case 1, 2: // integer literal text (negative: unary minus of the literal, which yields a float64)
+		if n >= 0 {
+			return lit(pv(prim{kind: kNum, f: f, lit: strconv.FormatInt(n, 10)}))
+		}
+		if n > math.MinInt64 {
+			return un(1, lit(pv(prim{kind: kNum, f: float64(-n), lit: strconv.FormatInt(-n, 10)})))
+		}
+		return plain
+	case 3: // int32 results
+		switch r.Intn(5) {
+		case 0:
+			return bin(6, plain, lit(num(0)))
+		case 1:
+			return bin(9, plain, lit(num(0)))
+		case 2:
+			return bin(8, plain, lit(num(0)))
+		case 3:
+			return bin(7, plain, lit(num(0)))
+		default:
+			return bin(5, plain, lit(num(-1)))
+		}
+	case 4: // ~(~n) and ~(n-ish)
+		if r.Intn(2) == 0 {
+			return un(2, un(2, plain))
+		}
+		return un(2, lit(num(float64(-n-1))))
+	case 5: // uint32 result
+		return un(11, plain)
+	case 6, 7, 8: // Go kinds through Otto.Set
+		var cands []interface{}
+		add := func(v interface{}) { cands = append(cands, v) }
+		add(int(n))
+		add(n)
+		if n >= -128 && n <= 127 {
+			add(int8(n))
+		}
+		if n >= -32768 && n <= 32767 {
+			add(int16(n))
+		}
+		if n >= -2147483648 && n <= 2147483647 {
+			add(int32(n))
+		}
+		if n >= 0 {
+			add(uint64(n))
+			add(uint(n))
+			if n <= 255 {
+				add(uint8(n))
+			}
+			if n <= 65535 {
+				add(uint16(n))
+			}
+			if n <= 4294967295 {
+				add(uint32(n))
+			}
+		}
+		if float64(float32(f)) == f {
+			add(float32(f))
+		}
+		add(f)
+		if g.force == nil {
+			g.force = map[string]interface{}{}
+		}
+		if _, taken := g.force[varNames[slot]]; taken {
+			return plain
+		}
+		g.force[varNames[slot]] = Pick(r, cands)
+		vs[slot] = num(f)
+		return evar(slot)
+	case 9: // .length of a string: Go int
+		if n >= 0 && n <= 40 {
+			return un(12, lit(str(strings.Repeat("a", int(n)))))
+		}
+		return plain
+	case 10: // float64 holding the integer
+		switch r.Intn(3) {
+		case 0:
+			return bin(2, plain, lit(num(1)))
+		case 1:
+			return un(0, plain)
+		default:
+			return bin(3, plain, lit(num(1)))
+		}
+	default: // assigned to a variable first: a = (n|0), then used
+		vs[slot] = pv(pUndef())
+		return bin(23, asg(slot, bin(6, plain, lit(num(0)))), evar(slot))
+	}
+}
+
+func (g *gen) reprCase() ([3]value, *expr) {
+	r := g.env.Rng
+	vs := g.vars(false, false)
+	var n, d int64
+	switch r.Intn(6) {
+	case 0, 1, 2: // even division, zero results, small quotients
+		d = Pick(r, []int64{1, -1, 2, -2, 3, -3, 4, 5, -5, 8, 10, 16, 2147483647, 2147483648, -2147483648, 4294967296, 65536})
+		k := int64(r.Intn(13) - 6)
+		n = k * d
+		if r.Intn(4) == 0 {
+			n += int64(r.Intn(3) - 1)
+		}
+	case 3:
+		n, d = Pick(r, reprBoundaries), Pick(r, reprBoundaries)
+	case 4:
+		n, d = Pick(r, reprBoundaries)+int64(r.Intn(5)-2), int64(r.Intn(9)-4)
+	default:
+		n, d = int64(int32(r.Uint32())), int64(int32(r.Uint32())>>uint(r.Intn(31)))
+	}
+	if n == math.MinInt64 {
+		n++
+	}
+	a := g.reprOperand(n, &vs, 0)
+	var e *expr
+	switch r.Intn(10) {
+	case 0: // unary
+		e = un(Pick(r, []int{0, 1, 2, 3, 4, 6, 8, 9, 10, 11}), a)
+	case 1: // compound assignment on a variable that holds the representation
+		vs[2] = pv(pUndef())
+		e = bin(23, asg(2, a), cmpd(Pick(r, []int{0, 1, 2, 3, 4, 4, 4, 5, 6, 7, 8, 9, 10}), 2, g.reprOperand(d, &vs, 1)))
+	case 2: // ++ / --
+		vs[2] = pv(pUndef())
+		e = bin(23, asg(2, a), bin(Pick(r, []int{0, 23, 4, 3}), inc(r.Intn(2) == 0, r.Intn(2) == 0, 2), evar(2)))
+	case 3: // 1 / (n % d): the sign of a zero remainder
+		e = bin(3, lit(num(1)), bin(4, a, g.reprOperand(d, &vs, 1)))
+	default:
+		op := Pick(r, []int{4, 4, 4, 4, 3, 3, 2, 2, 1, 0, 0, 11, 12, 13, 14, 15, 16, 17, 18, 5, 6, 7, 8, 9, 10, 21, 22})
+		e = bin(op, a, g.reprOperand(d, &vs, 1))
+		if r.Intn(6) == 0 { // feed the result on: int-kinded results as operands of the next operator
+			e = bin(Pick(r, []int{4, 3, 2, 0, 1, 15, 13}), e, g.reprOperand(Pick(r, []int64{1, 2, -2, 3, 0}), &vs, 2))
+		}
+	}
+	return vs, e
+}
+
 // one object used 2-5 times on the same runtime while the conversion methods it resolves to are
 // replaced, deleted and restored on the object itself, on its user prototypes and on Object.prototype
 func (g *gen) history() ([3]value, *expr) {
@@ -1473,6 +1629,40 @@ func runC05(env *Env) {
 			}
 			continue
 		}
+		if r.Intn(40) == 0 { // ToString (9.8.1) of whole doubles from 2^53 up: shortest digits, not the exact integer
+			var f float64
+			switch r.Intn(3) {
+			case 0:
+				f = math.Ldexp(float64(uint64(1)<<52|r.Uint64()&(1<<52-1)), 1+r.Intn(10)) // [2^53, 2^63)
+			case 1:
+				f = math.Ldexp(float64(uint64(1)<<52|r.Uint64()&(1<<52-1)), 11+r.Intn(8)) // [2^63, 2^71): around the 1e21 switch
+			default:
+				f = float64(r.Int63n(1<<53)) * Pick(r, []float64{10, 100, 1000, 7, 1e5})
+			}
+			if r.Intn(2) == 0 {
+				f = -f
+			}
+			vs := g.vars(false, false)
+			x := g.operand(num(f), &vs, 0)
+			var e *expr
+			switch r.Intn(4) {
+			case 0:
+				e = un(7, x)
+			case 1:
+				e = bin(0, x, lit(str("")))
+			case 2:
+				e = bin(0, lit(str("x")), x)
+			default:
+				e = un(12, x)
+			}
+			g.runCase(vs, e, "whole-tostring", true)
+			continue
+		}
+		if r.Intn(8) == 0 { // every operator over integers in every internal representation
+			vs, e := g.reprCase()
+			g.runCase(vs, e, "repr", true)
+			continue
+		}
 		if r.Intn(25) == 0 { // sign rules of / % * + - on zeros, infinities and NaN
 			sp := []float64{0, math.Copysign(0, -1), math.Inf(1), math.Inf(-1), math.NaN(), 1, -1, 5, -5, 0.5, -0.5, 1.7976931348623157e308, -5e-324}
 			vs := g.vars(false, false)
@@ -1616,15 +1806,19 @@ func runC05(env *Env) {
 				vs[0] = g.object(true)
 			}
 			var e *expr
+			oop := g.anyBinOp()
+			if r.Intn(2) == 0 { // the operators whose operands are both converted: GetValue of both sides precedes either conversion
+				oop = Pick(r, []int{0, 1, 2, 3, 4, 5, 6, 7, 8, 9, 10, 15, 16, 17, 18, 11})
+			}
 			switch r.Intn(4) {
 			case 0:
-				e = bin(g.anyBinOp(), evar(0), evar(1))
+				e = bin(oop, evar(0), evar(1))
 			case 1:
 				e = cmpd(r.Intn(11), r.Intn(2), bin(23, asg(r.Intn(2), g.leaf(true, true)), g.leaf(true, true)))
 			case 2:
 				e = bin(g.anyBinOp(), bin(g.anyBinOp(), evar(0), evar(1)), evar(r.Intn(3)))
 			default:
-				e = bin(g.anyBinOp(), evar(1), evar(0))
+				e = bin(oop, evar(1), evar(0))
 			}
 			g.runCase(vs, e, "order", true)
 		default: // random trees
